@@ -517,6 +517,26 @@ Definition entry_lapjv (a : sx) : sx :=
   | Some (x, y, u, v) => L [of_nats x; of_nats y; L (map of_ext u); L (map of_ext v)]
   end.
 
+(* the premise of C01_lapjv_ref_fixed_total_partial, executable: phases 1-3 of the (Fixed, eps 0 at :202) solver hand a
+   state over to augment, i.e. the eps-retry passes of augmenting row reduction return within the model's fuel *)
+Definition arr_returns_b (epsr : Z) (k n : nat) (tri : list triple) : bool :=
+  let rows := rows_of n tri in
+  let mi := min_i n tri in
+  let x0 := x_init n mi in
+  let y0 := y_init n x0 in
+  let uv := reduction_transfer Fixed n rows (jflat_of rows) x0 (one_rows n mi) (repeat (Fin 0) n) (v_init n tri) in
+  match free_rows n mi with
+  | [] => true
+  | _ => match arr_passes k (arr_fuel n tri) (Fin 0) (Fin epsr) n rows (x0, y0, snd uv, free_rows n mi) with
+         | None => false
+         | Some _ => true
+         end
+  end.
+
+(* (epsr k n triples) -> 1 | 0 *)
+Definition entry_arr (a : sx) : sx :=
+  I (if arr_returns_b (as_Z (arg 0 a)) (as_nat (arg 1 a)) (as_nat (arg 2 a)) (as_triples (arg 3 a)) then 1 else 0).
+
 (* (n1 n2 x labs1 labs2) -> pairs of label numbers *)
 Definition entry_track (a : sx) : sx :=
   of_pairs (track_numbers (as_Zs (arg 3 a)) (as_Zs (arg 4 a))
